@@ -60,9 +60,11 @@ template <class T> static void behaves_like(T &obj, const char *cls, const char 
         obj.set_nonce(NONCE, 16);
         if (adl) obj.encrypt(bc, bm, bad); else obj.encrypt(bc, bm);
         if (bc.size() != ml + 16 || memcmp(bc.data(), exp, ml + 16)) { hx_fail(kb, "encrypt(byte_array) result has size %zu / differs from the C function (adlen=%zu mlen=%zu)", bc.size(), adl, ml); return; }
+        ascon::byte_array kept(bc), keptp;   /* copies the caller keeps: later calls that write into bc / bp must not change them */
         obj.set_nonce(NONCE, 16);
         bool ok = adl ? obj.decrypt(bp, bc, bad) : obj.decrypt(bp, bc);
         if (!ok || bp.size() != ml || (ml && memcmp(bp.data(), MSG, ml))) { hx_fail(kb, "decrypt(byte_array) failed or returned %zu bytes (adlen=%zu mlen=%zu)", bp.size(), adl, ml); return; }
+        keptp = bp;
         /* failure: cleared output and false */
         bc[ml + 5] ^= 1; obj.set_nonce(NONCE, 16); bp = ascon::byte_array(7, 0x11);
         ok = adl ? obj.decrypt(bp, bc, bad) : obj.decrypt(bp, bc);
@@ -70,6 +72,14 @@ template <class T> static void behaves_like(T &obj, const char *cls, const char 
         ascon::byte_array shortc(9, 0); bp = ascon::byte_array(7, 0x11);
         if (obj.decrypt(bp, shortc) || bp.size() != 0) { hx_fail(kb, "decrypt(byte_array) of a packet shorter than the tag must fail with an empty result"); return; }
         if (obj.decrypt(pt, exp, 9, 0, 0) >= 0) { hx_fail(kb, "decrypt(ptr) of a packet shorter than the tag must fail"); return; }
+        {   /* a shorter packet into the same output arrays, then the kept copies */
+            unsigned char exp0[96]; c_encrypt(fam, alg, key, NONCE, ADB, 0, MSG, ml, exp0);
+            obj.set_nonce(NONCE, 16); obj.encrypt(bc, bm); ascon::byte_array kept2(bc);      /* bc and kept2 share storage now */
+            ascon::byte_array half = mk_ba(MSG, ml / 2); obj.set_nonce(NONCE, 16); obj.encrypt(bc, half); obj.set_nonce(NONCE, 16); obj.decrypt(bp, bc);
+            if (kept2.size() != ml + 16 || memcmp(kept2.data(), exp0, ml + 16)) { hx_fail(kb, "a copy sharing storage with an encrypt(byte_array) result changed when that output array was written again (size %zu, mlen=%zu)", kept2.size(), ml); return; }
+            if (kept.size() != ml + 16 || memcmp(kept.data(), exp, ml + 16)) { hx_fail(kb, "a kept copy of an encrypt(byte_array) result changed when the same output array was written again (size %zu, adlen=%zu mlen=%zu)", kept.size(), adl, ml); return; }
+            if (keptp.size() != ml || (ml && memcmp(keptp.data(), MSG, ml))) { hx_fail(kb, "a kept copy of a decrypt(byte_array) result changed when the same output array was written again (size %zu, mlen=%zu)", keptp.size(), ml); return; }
+        }
         /* documented in aead.h: the nonce is not incremented if decryption fails, and is after a success: forged, genuine, then the next packet, without touching the nonce */
         {
             unsigned char forged[96], n1[16], exp2[96]; memcpy(forged, exp, ml + 16); forged[ml + 2] ^= 0x10;
